@@ -14,7 +14,7 @@ ENGINE = "spec"
 TECHNIQUE = "differential oracle: independent Murmur3Partitioner / RandomPartitioner token implementations"
 LEVEL_TEXT = ("exhaustive over all 1- and 2-byte keys and over every tail position x {00,01,7f,80,ff} for lengths 0..48, "
               "seeded random keys to 1 KiB; every key judged against an independent implementation; the MIN_LONG corner is "
-              "reached by substituting the hash result. A pure function of the input, so input exploration is the right level.")
+              "reached both with real keys constructed by inverting the hash and by substituting the hash result. A pure function of the input, so input exploration is the right level.")
 LEVEL_NOTE = ("trusted base: spec/murmur.py (validated on canonical MurmurHash3 vectors and Cassandra token vectors), "
               "spec/md5tok.py (RFC 1321 vectors), hashlib.md5; the C extension cmurmur3 is not built in this tree (C07 covers it)")
 QUICK_WORKERS = 2
@@ -63,6 +63,8 @@ class Judge(object):
             unsigned = self.murmur.normalize(self.murmur.to_signed64(self.murmur.hash3_x64_128(k, 0, False)[0]))
             if got == unsigned and any(b & 0x80 for b in tail):
                 mech = "murmur3-tail-bytes-not-sign-extended"
+            elif self.murmur.hash_long(k) == self.murmur.MIN_LONG:
+                mech = "murmur3-key-hashing-to-min-long-not-mapped-to-max-long"
             elif len(tail) == 0:
                 mech = "murmur3-body-mismatch"
             else:
@@ -183,7 +185,8 @@ def run(ctx):
     import cassandra.metadata as md
     ctx.rule = ("all 1- and 2-byte keys; lengths 0..48 with every byte position (and pairs / short products of tail positions) "
                 "set to each of {00,01,7f,80,ff} over 5 base fills; seeded random keys to 1 KiB (uniform, pool-valued, "
-                "all-high, ASCII); distinct = the key bytes; the empty key (not a legal partition key) is the only trivial case")
+                "all-high, ASCII); real keys constructed (hash inverted over the last block, prefixes of 0-3 blocks) to hash to Long.MIN_VALUE, "
+                "MIN+1, MAX, MAX-1, -1, 0, 1, +-2**62 ... ; distinct = the key bytes; the empty key (not a legal partition key) is the only trivial case")
     if md.murmur3 is None:
         raise Inconclusive("cassandra.metadata.murmur3 is None: no murmur3 implementation importable")
     if m3.murmur3 is m3._murmur3:
@@ -238,6 +241,38 @@ def run(ctx):
     for _ in range(200):
         j.forced_hash(random_key(rng), rng.choice([murmur.MIN_LONG, rng.randint(murmur.MIN_LONG, murmur.MAX_LONG)]))
 
+    # (e) REAL keys whose raw hash is an edge value, through the real hash (no substitution): the hash
+    #     is inverted over the last 16-byte block for any 16n-byte prefix (spec.murmur.key_with_hash)
+    edge_targets = [murmur.MIN_LONG, murmur.MIN_LONG, murmur.MIN_LONG + 1, murmur.MAX_LONG, murmur.MAX_LONG - 1, -1, 0, 1,
+                    -(1 << 62), 1 << 62, -(1 << 32), (1 << 32) - 1]
+    prefixes = [b"", b"tenant-0042:user", b"\x00" * 16, b"\xff" * 16, b"\x80" * 32, b"0123456789abcdef" * 2]
+    for rep in range(ctx.scale(40, 4000)):
+        for tgt in edge_targets:
+            if rep < len(prefixes):
+                pre = prefixes[rep]
+            else:
+                pre = rng.getrandbits(8 * 16 * rng.choice([0, 1, 2, 3])).to_bytes(16 * 3, "little")
+                pre = pre[:16 * rng.choice([0, 1, 2, 3])]
+            k = murmur.key_with_hash(tgt, pre, rng.getrandbits(64))
+            if murmur.hash_long(k) != tgt:
+                raise Inconclusive("spec.murmur.key_with_hash produced a key with another hash")
+            ctx.count("real_keys_with_chosen_edge_hash")
+            if tgt == murmur.MIN_LONG:
+                ctx.count("real_keys_hashing_to_min_long")
+            j.key(k, "inverted-hash")
+            raw = md.murmur3(k)
+            if int(raw) != tgt:
+                ctx.violation("murmur3-hash-mismatch-at-edge-value", "murmur3(key) = %r, Cassandra's hash3_x64_128 gives %d" % (raw, tgt),
+                              {"key": k, "driver_hash": raw, "spec_hash": tgt})
+    for _ in range(ctx.scale(300, 30000)):
+        tgt = rng.choice([rng.randint(murmur.MIN_LONG, murmur.MAX_LONG), murmur.MIN_LONG + rng.randint(0, 3), murmur.MAX_LONG - rng.randint(0, 3),
+                          rng.randint(-3, 3)])
+        k = murmur.key_with_hash(tgt, rng.getrandbits(8 * 48).to_bytes(48, "little")[:16 * rng.randint(0, 3)], rng.getrandbits(64))
+        ctx.count("real_keys_with_chosen_edge_hash")
+        if tgt == murmur.MIN_LONG:
+            ctx.count("real_keys_hashing_to_min_long")
+        j.key(k, "inverted-hash")
+
     if j.seen_tail != set(range(16)):
         raise Inconclusive("tail sizes seen: %s" % sorted(j.seen_tail))
     ctx.count("tail_sizes_covered", 16)
@@ -248,4 +283,5 @@ def run(ctx):
     ctx.floor_distinct = 60000 if ctx.quick else 2000000
     ctx.floor_counters = {"murmur3_comparisons": 60000, "md5_comparisons": 60000, "bytes_comparisons": 60000,
                           "keys_with_tail_byte_ge_0x80": 20000, "min_long_mappings_observed": 4,
+                          "real_keys_hashing_to_min_long": 50, "real_keys_with_chosen_edge_hash": 500,
                           "forced_hash_substitutions": 100}
